@@ -18,6 +18,7 @@ import (
 	"log/slog"
 	"math/rand"
 	"os"
+	"runtime"
 	"strconv"
 	"strings"
 	"sync"
@@ -437,9 +438,29 @@ func lgNoOp(r *lgRun) {
 
 // ---------------------------------------------------------------------------------------------- concurrency
 
+// lgChunkWriter is safe for concurrent use but NOT atomic per Write (like a buffered, chunking or rotating sink): it stores a
+// record in two locked steps. Records stay intact only if the logger serialises its Write calls, whatever their level.
+type lgChunkWriter struct {
+	mu  sync.Mutex
+	buf bytes.Buffer
+}
+
+func (w *lgChunkWriter) Write(p []byte) (int, error) {
+	h := len(p) / 2
+	w.mu.Lock()
+	w.buf.Write(p[:h])
+	w.mu.Unlock()
+	runtime.Gosched()
+	w.mu.Lock()
+	w.buf.Write(p[h:])
+	w.mu.Unlock()
+	return len(p), nil
+}
+
 func lgConcurrentSimple(r *lgRun, G, N, thr int) {
-	var buf bytes.Buffer // written only by log.Logger, which serialises its writes
-	l := qlog.NewSimpleLogger(log.New(&buf, "", 0), qlog.Level(thr))
+	var cw lgChunkWriter
+	buf := &cw.buf // read after all goroutines have finished
+	l := qlog.NewSimpleLogger(log.New(&cw, "", 0), qlog.Level(thr))
 	var wg sync.WaitGroup
 	for g := 0; g < G; g++ {
 		wg.Add(1)
